@@ -381,6 +381,9 @@ impl<A: Fam, B: Fam> Fam for (A, B) {
     fn tname() -> String {
         format!("({},{})", A::tname(), B::tname())
     }
+    fn serde_supported() -> bool {
+        A::serde_supported() && B::serde_supported()
+    }
 }
 
 impl<A: Fam, B: Fam, C: Fam> Fam for (A, B, C) {
@@ -398,6 +401,9 @@ impl<A: Fam, B: Fam, C: Fam> Fam for (A, B, C) {
     }
     fn tname() -> String {
         format!("({},{},{})", A::tname(), B::tname(), C::tname())
+    }
+    fn serde_supported() -> bool {
+        A::serde_supported() && B::serde_supported() && C::serde_supported()
     }
 }
 
@@ -628,7 +634,7 @@ where
             if sa != sb && tname != "()" {
                 return CaseResult::violation(h, format!("{}: Ser({:?}) builds the value `{}`, Pushable builds `{}`", tname, v, clip(&sb), clip(&sa)), sig4("serde-builds-another-value"));
             }
-            if !T::serde_supported() && !tname.contains('(') {
+            if !T::serde_supported() {
                 // the shapes coincide by accident (an empty container): reading it back with `De`
                 // at a type `Ser` does not honour is the listed finding F54, not run again here
                 r.stat("serde_shapes_coincide_on_unsupported_type", 1);
